@@ -427,8 +427,21 @@ class ClientBase(Base):
         return None, res
 
 
+MASK_SHAPE = [0]      # how the case at hand spells its usage mask lists (set by run_case)
+
+
 def _masks(m):
-    return [e for e in E.CryptographicUsageMask if e.value & m]
+    """The flag list a pie caller passes for mask m.  The list names a set of flags: order and
+    repetition (lists assembled as common + per-key flags) do not change the mask it stands for."""
+    out = [e for e in E.CryptographicUsageMask if e.value & m]
+    shape = MASK_SHAPE[0]
+    if shape == 1:
+        out = out[::-1]
+    elif shape == 2 and out:
+        out = out + out[:1]
+    elif shape == 3:
+        out = out + out[::-1]
+    return out
 
 
 def pie_params(p):
@@ -964,6 +977,7 @@ def features(spec):
 
 
 def run_case(spec):
+    MASK_SHAPE[0] = spec.get("mshape", 0)
     """-> dict(buckets, classes, nontrivial, status, bumps)."""
     v = tuple(spec["v"])
     path = spec["path"]
